@@ -39,12 +39,13 @@ Proof. exact dns_new_total. Qed.
 Print Assumptions C07_config_accepted.
 
 (* REQUEST ROUTING = FIRST MATCH.  For every well-formed dns section and every question (any name — any case, with or
-   without trailing dot, also the empty name — and any qtype), the code path
+   without trailing dot, the root name "." (only a regex can match it), also a message without name — and any qtype), the code path
    RulesBuilder.Apply + addQName/addQType + addFallback + Build -> RequestMatcher.Match -> Dns.RequestSelect
    returns exactly the verdict of the first matching request rule (or of the fallback). *)
 Theorem C07_request_first_match :
   forall (cfg : config) (d : dns) (bm : list N) (q : question),
     wf_config cfg = true -> dns_new cfg = Ok d ->
+    (q_name q = ""%string -> q_regex_hits q = []) ->       (* a message without question name has no regex hits *)
     (q_name q <> ""%string -> C07_domain_oracle_agrees (d_req d) bm q) ->
     exists v, request_route cfg q = Some v /\ request_select d bm q = Ok v.
 Proof. exact request_select_refines. Qed.
@@ -66,6 +67,7 @@ Print Assumptions C07_response_first_match.
 Theorem C07_reject_ignores_cache :
   forall (cfg : config) (d : dns) (bmq bmr : list N) (c : cache) (q : question) (a : answers) (fuel : nat),
     wf_config cfg = true -> dns_new cfg = Ok d ->
+    (q_name q = ""%string -> q_regex_hits q = []) ->
     (q_name q <> ""%string -> C07_domain_oracle_agrees (d_req d) bmq q) ->
     request_route cfg q = Some QReject ->
     handle fuel d bmq bmr c q a = (Ok [], [], cache_remove_family c q) /\
@@ -167,6 +169,7 @@ Print Assumptions C07_rconfig_accepted.
 Theorem C07_request_first_match_raw :
   forall (rc : rconfig) (d : dns) (bm : list N) (q : question),
     wf_rconfig rc = true -> dns_new_raw rc = Ok d ->
+    (q_name q = ""%string -> q_regex_hits q = []) ->
     (q_name q <> ""%string -> C07_domain_oracle_agrees (d_req d) bm q) ->
     exists v, request_route_raw rc q = Some v /\ request_select d bm q = Ok v.
 Proof. exact C07_request_first_match_raw_proof. Qed.
